@@ -1194,6 +1194,8 @@ pub struct Boot<'a, CC> {
     factory_reset: &'a dyn Fn(bool) -> Result<(), String>,
     live_subs: &'a dyn Fn() -> Vec<LiveSub>,
     subs: &'a dyn Fn() -> Vec<SubInfo>,
+    #[allow(clippy::type_complexity)]
+    dev_case: &'a dyn Fn(usize, NonZeroU8, u64, Rc<RefCell<Option<Result<(), Error>>>>) -> core::pin::Pin<Box<dyn core::future::Future<Output = ()> + 'a>>,
     dm_exit: &'a RefCell<Option<String>>,
     next_sess: u16,
     plant_seed: u32,
@@ -1347,10 +1349,31 @@ where
         state.subscriptions().verif_for_each_live_sub(|s| v.push(LiveSub { id: s.id, fab_idx: s.fab_idx, peer_node_id: s.peer_node_id }));
         v
     };
-    let sinks: Vec<Responder<'_, ReportSink<'_>>> = if opts.ctrl_report_sink {
-        ctrls.iter().map(|c| Responder::new("ctrl.sink", ReportSink { log: &c.reports }, &c.matter, 0)).collect()
+    // (the controllers also answer CASE handshakes the device opens towards them)
+    let sinks: Vec<Responder<'_, rs_matter::respond::ChainedExchangeHandler<rs_matter::sc::SecureChannel<'_, &CC, ()>, ReportSink<'_>>>> = if opts.ctrl_report_sink {
+        ctrls
+            .iter()
+            .map(|c| {
+                Responder::new(
+                    "ctrl.sink",
+                    rs_matter::respond::ChainedExchangeHandler::new(rs_matter::sc::PROTO_ID_SECURE_CHANNEL, rs_matter::sc::SecureChannel::new(&c.crypto, &()), ReportSink { log: &c.reports }),
+                    &c.matter,
+                    0,
+                )
+            })
+            .collect()
     } else {
         Vec::new()
+    };
+    let dev_case = |node: usize, fab: NonZeroU8, peer: u64, slot: Rc<RefCell<Option<Result<(), Error>>>>| -> core::pin::Pin<Box<dyn core::future::Future<Output = ()> + '_>> {
+        Box::pin(async move {
+            let r = async {
+                let exch = Exchange::initiate_plaintext(matter, crypto, node_addr(node)).await?;
+                CaseInitiator::perform(exch, crypto, fab, peer).await
+            }
+            .await;
+            *slot.borrow_mut() = Some(r);
+        })
     };
     let factory_reset = |matter_first: bool| -> Result<(), String> {
         let m = || matter.factory_reset(&kva).map_err(|e| format!("Matter::factory_reset: {:?}", e.code()));
@@ -1426,6 +1449,7 @@ where
         factory_reset: &factory_reset,
         live_subs: &live_subs,
         subs: &subs,
+        dev_case: &dev_case,
         dm_exit: &dm_exit,
         next_sess: 0x1000u16.wrapping_add((cfg.seed as u16) & 0x0fff),
         plant_seed: cfg.seed ^ 0x7a7a,
@@ -1644,6 +1668,17 @@ impl<'a, CC: Crypto> Boot<'a, CC> {
             .await;
             *s2.borrow_mut() = Some(r);
         });
+        CaseTask { ctrl, before, slot, task }
+    }
+
+    /// As [`Boot::case_spawn`], but the DEVICE initiates the handshake towards controller `ctrl`
+    /// (which answers it when the incarnation runs with `BootOpts::ctrl_report_sink`).
+    pub fn dev_case_spawn(&mut self, ctrl: usize, dev_fab_idx: NonZeroU8, ctrl_node: u64) -> CaseTask {
+        let c = &self.ctrls[ctrl];
+        let before: Vec<u32> = sessions(&c.matter).iter().map(|s| s.id).collect();
+        let slot: Rc<RefCell<Option<Result<(), Error>>>> = Rc::new(RefCell::new(None));
+        let fut = (self.dev_case)(c.net_node(), dev_fab_idx, ctrl_node, slot.clone());
+        let task = self.ex.spawn("dev-case.bg", fut);
         CaseTask { ctrl, before, slot, task }
     }
 
